@@ -34,7 +34,7 @@ namespace Repe.C16
 
 /-- `try_acquire_owned`, no wait in the saturation branch, `let _permit = permit;` first in the blocking
 closure, `catch_unwind` around `dispatch`, InternalError / ResourceExhausted as the two reply codes,
-saturated notifies dropped, `MiddlewarePipeline::execution` forwards, `_blocking` registrars wrap with
+saturated notifies dropped, both replies built from the request (id), `MiddlewarePipeline::execution` forwards, `_blocking` registrars wrap with
 `OffReaderHandler` whose execution is `OffReader` — as extracted from `/repo` on this run. -/
 theorem source_facts : Gen.offFacts = specOffFacts := by decide
 
